@@ -187,9 +187,23 @@ pub fn reflect_cases(tier: Tier) -> Vec<Case> {
         (3, false, Entry::Reader(8192)),
         (64, true, Entry::WithDeStr),
     ];
+    // thorough: every radius x {from_str, from_reader(7), from_multiple} x snippets on/off
+    let mut all_cfg: Vec<(usize, bool, Entry)> = configs.to_vec();
+    if tier == Tier::Thorough {
+        for r in RADII {
+            for e in [Entry::Str, Entry::Reader(7), Entry::Multi] {
+                for snip in [true, false] {
+                    if !all_cfg.contains(&(*r, snip, e)) {
+                        all_cfg.push((*r, snip, e));
+                    }
+                }
+            }
+        }
+    }
+    let configs: &[(usize, bool, Entry)] = &all_cfg;
     let ctx_before: &[&str] = &["", "# c1\n", "# c1\n# \u{1b}[32mc2\u{9b}\n# c3\n"];
     let ctx_after: &[&str] = &["", "# a1\n# a2 \u{7f}\u{8}\n# a3\n"];
-    for (pi, (_, payload)) in PAYLOADS.iter().enumerate() {
+    for (_, payload) in PAYLOADS.iter() {
         for spelling in 0..4u8 {
             let k: String = match spelling {
                 0 => dq(payload, 0),
@@ -208,25 +222,16 @@ pub fn reflect_cases(tier: Tier) -> Vec<Case> {
                 }
             };
             let raw = if payload.contains(['\n', '\r']) { "x" } else { payload };
-            for (ti, tpl) in templates(&k, raw).into_iter().enumerate() {
-                for (bi, b) in ctx_before.iter().enumerate() {
-                    for (ai, a) in ctx_after.iter().enumerate() {
+            for tpl in templates(&k, raw) {
+                for b in ctx_before.iter() {
+                    for a in ctx_after.iter() {
                         // quick: thin the context grid deterministically, thorough: all of it
-                        if tier == Tier::Quick && (bi + ai + ti + pi) % 3 != 0 {
-                            continue;
-                        }
                         for crlf in [false, true] {
-                            if crlf && tier == Tier::Quick && (ti + pi + spelling as usize) % 2 != 0 {
-                                continue;
-                            }
                             let mut doc = format!("{b}{}{a}", tpl.doc);
                             if crlf {
                                 doc = doc.replace('\n', "\r\n");
                             }
-                            for (ci, (radius, snip, entry)) in configs.iter().enumerate() {
-                                if tier == Tier::Quick && ci >= 2 && (ci + ti + bi + pi) % 3 != 0 {
-                                    continue;
-                                }
+                            for (radius, snip, entry) in configs.iter() {
                                 if tpl.target == "StrRef" && !matches!(entry, Entry::Str | Entry::Slice) {
                                     continue;
                                 }
@@ -286,6 +291,19 @@ pub fn fixed_cases() -> Vec<Case> {
         d.push_str("v: {\"\u{4e16}\u{754c}e\u{301}\": 1, q: &x zz}\n# between\nk2: *x\n# after\n");
         add(&d, "Strict", &both, &radii);
     }
+    // every line of the window starts with more than 20 white-space characters (NBSP counts for
+    // annotate-snippets) and the location lies inside them
+    let nb = "\u{a0}".repeat(30);
+    add(&format!("{nb}a: 1\n{nb}a: 1\n"), "MapI32", &both, &radii);
+    add(&format!("# c\n{nb}a: 1\n{nb}b: 2\n{nb}a: 3\n{nb}c: 4\n"), "MapI32", &both, &radii);
+    // a line wider than 65535 columns with the error at its end (miette pads with `{:width$}`)
+    add(&format!("[{}zz]\n", "1, ".repeat(25_000)), "VecI32", &[Entry::Str], &[64]);
+    add(&format!("k: {{\"{}\": 1, q: zz}}\n", "\ta".repeat(20_000)), "MapI32", &[Entry::Str], &[64]);
+    // a raw NUL ends the stream for the parser (inside a long line: the miette adapter crops it)
+    let xs = "x".repeat(2100);
+    add(&format!("# short\n# {xs}\u{0}{xs}\n#x\nk: 1\n"), "TupU8Str", &[Entry::Str, Entry::Slice], &[64, 3]);
+    add(&format!("# {xs}\u{0}{xs}\n#x\nk: 1\n"), "String", &[Entry::Str, Entry::Slice], &[64, 3]);
+    add("&a\u{0}b a\n# c\n", "String", &[Entry::Str, Entry::Slice, Entry::WithDeStr], &[64, 3]);
     // documents whose first token already fails (from_multiple peeks before deserializing)
     for d in ["}", "]", "*a", "- }", "\"a", "a: 1\n---\n}\n"] {
         add(d, "MapI32", &[Entry::Multi, Entry::Str, Entry::WithDeStr], &radii);
@@ -312,15 +330,14 @@ pub const UNITS: &[(&str, &str)] = &[
     ("zero-width-space", "a\u{200b}"),
 ];
 
-const PLEN_QUICK: &[usize] = &[0, 1, 3, 5, 63, 64, 65, 139, 300, 5000];
 const PLEN_THOROUGH: &[usize] = &[0, 1, 2, 3, 4, 5, 10, 62, 63, 64, 65, 66, 127, 128, 129, 139, 140, 141, 200, 300, 4097, 5000, 20000];
 
-fn plens(tier: Tier) -> &'static [usize] {
-    tier.pick(PLEN_QUICK, PLEN_THOROUGH)
+fn plens(_tier: Tier) -> &'static [usize] {
+    PLEN_THOROUGH
 }
 
 pub fn geometry_count(tier: Tier) -> usize {
-    UNITS.len() * plens(tier).len() * RADII.len() * tier.pick(16, 60)
+    UNITS.len() * plens(tier).len() * RADII.len() * tier.pick(20, 300)
 }
 
 fn repeat_chars(unit: &str, n_chars: usize) -> String {
@@ -354,7 +371,7 @@ fn pick_entry(rng: &mut Rng) -> Entry {
 }
 
 pub fn geometry_case(tier: Tier, seed: u64, i: usize) -> Vec<Case> {
-    let reps = tier.pick(16, 60);
+    let reps = tier.pick(20, 300);
     let pl = plens(tier);
     let mut j = i / reps;
     let radius = RADII[j % RADII.len()];
@@ -638,4 +655,336 @@ pub fn mutated_case(tier: Tier, seed: u64, i: usize, w2: &[Case]) -> Option<Case
     c.with_snippet = !rng.chance(1, 6);
     c.entry = pick_entry(&mut rng);
     Some(c)
+}
+
+// ------------------------------------------------------------------ W7: validation reports (garde / validator)
+
+pub fn validation_cases(tier: Tier) -> Vec<Case> {
+    use crate::cases::F_MULTILINE;
+    let mut out = Vec::new();
+    let configs: &[(usize, bool, Entry)] = &[
+        (64, true, Entry::Str),
+        (3, true, Entry::Str),
+        (1, true, Entry::Slice),
+        (64, true, Entry::Reader(7)),
+        (64, true, Entry::Reader(8192)),
+        (0, true, Entry::Str),
+        (64, false, Entry::Str),
+        (1_000_000, true, Entry::Multi),
+        (64, true, Entry::ReadIter(7)),
+        (3, true, Entry::Multi),
+    ];
+    let wide = "\u{4e16}\u{754c}e\u{301}";
+    for (pi, (pname, payload)) in PAYLOADS.iter().enumerate() {
+        for spelling in 0..3u8 {
+            let k: String = match spelling {
+                0 => dq(payload, 0),
+                1 => dq(payload, 1),
+                _ => {
+                    if payload.contains(['\n', '\r']) {
+                        continue;
+                    }
+                    format!("\"{payload}\"")
+                }
+            };
+            let ml = if *pname == "lf" { F_MULTILINE } else { 0 };
+            let long_list = format!("list: [{} {{n: 0}}]\n", "{n: 1},".repeat(tier.pick(60, 400)));
+            let docs: Vec<String> = vec![
+                // custom rule message repeats the value
+                format!("note: {k}\n"),
+                format!("firstName: Al\nnote: {k}\ncount: 3\n"),
+                // map key of the input becomes part of the reported path
+                format!("items:\n  {k}: {{n: 0, name: ab}}\n"),
+                format!("items: {{{k}: {{n: 0}}, ok: {{n: 1}}}}\n"),
+                format!("items: {{\"{wide}\": {{n: 1}}, {k}: {{n: 0, name: \"{wide}\"}}}}\n"),
+                // aliased invalid values: use site + definition site
+                format!("defs:\n  - &c 0\n  - &it {{n: 50, name: {k}}}\ncount: *c\nlist:\n  - *it\n"),
+                format!("defs: {{\"{wide}\": &c 0, z: &nm x}}\n# {payload_c}\ncount: *c\nfirstName: *nm\n", payload_c = payload.replace(['\n', '\r'], " ")),
+                // many issues, far apart
+                format!(
+                    "# c\ndefs:\n  - &c 0\n  - &it {{n: 50, name: zz}}\nfirstName: x\nnote: {k}\ncount: *c\nitems:\n  {k}: {{n: 0, name: ab}}\n{}list:\n  - {{n: 5, name: q}}\n  - *it\n",
+                    "# pad\n".repeat(12)
+                ),
+                // error far right on a long line
+                long_list.clone(),
+                format!("note: {k}\n{long_list}"),
+                // streams: second / both documents fail
+                format!("note: ok\n---\nnote: {k}\ncount: 0\n"),
+                format!("count: 0\n---\n# c\nitems:\n  {k}: {{n: 0}}\n...\n---\nfirstName: x\n"),
+            ];
+            for (di, d) in docs.iter().enumerate() {
+                let fills: &[usize] = tier.pick(&[0usize, 9, 99][..], &[0usize, 1, 8, 9, 10, 98, 99, 100, 999][..]);
+                for &fill in fills {
+                    let doc = format!("{}{d}", "# filler\n".repeat(fill));
+                    for crlf in [false, true] {
+                        if crlf && (di + pi + fill) % 2 != 0 {
+                            continue;
+                        }
+                        let doc = if crlf { doc.replace('\n', "\r\n") } else { doc.clone() };
+                        for target in ["GCfg", "VCfg"] {
+                            for (radius, snip, entry) in configs.iter() {
+                                let mut c = Case::new(&doc, target, "validation");
+                                c.flags = ml;
+                                c.radius = *radius;
+                                c.with_snippet = *snip;
+                                c.entry = *entry;
+                                out.push(c);
+                            }
+                        }
+                    }
+                }
+            }
+        }
+    }
+    let mut seen = std::collections::HashSet::new();
+    out.retain(|c| seen.insert(c.hash()));
+    out
+}
+
+// ------------------------------------------------------------------ W8: reader window alignment sweep
+
+/// Exhaustive: the distance between the start of the reader's recent-bytes window and the
+/// start of a line takes every value 0..line length. The window starts `RING` bytes before the
+/// end of what has been read; what has been read depends on the chunk size, so both the
+/// filler length (byte by byte) and the chunk size are swept.
+pub fn ring_sweep_count(tier: Tier) -> usize {
+    RING_PADS(tier) * RING_CHUNKS.len() * RING_SHAPES
+}
+#[allow(non_snake_case)]
+fn RING_PADS(tier: Tier) -> usize {
+    tier.pick(400, 1600)
+}
+const RING_CHUNKS: &[usize] = &[1, 7, 64, 1000, 3071, 3072, 3073, 4096, 8191, 8192, 8193, 65536];
+const RING_SHAPES: usize = 6;
+
+pub fn ring_sweep_case(tier: Tier, i: usize) -> Vec<Case> {
+    let pads = RING_PADS(tier);
+    let pad = i % pads;
+    let chunk = RING_CHUNKS[(i / pads) % RING_CHUNKS.len()];
+    let shape = i / pads / RING_CHUNKS.len();
+    // lines of 97 bytes (prime, so the 3072-byte window start drifts through the line)
+    let unit = ["x", "\u{e9}", "\u{4e16}"][shape % 3];
+    let body_line = |n: usize| -> String {
+        let head = format!("k{n}: {n} # ");
+        let mut l = head.clone();
+        while l.len() + unit.len() <= 96 {
+            l.push_str(unit);
+        }
+        l
+    };
+    let mut doc = String::new();
+    doc.push_str("# ");
+    doc.push_str(&"p".repeat(pad));
+    doc.push('\n');
+    let n_lines = 80 + (shape / 3) * 60;
+    for n in 0..n_lines {
+        doc.push_str(&body_line(n));
+        doc.push('\n');
+    }
+    let tail: &[&str] = if shape / 3 == 0 {
+        // failing value on a line of its own, after long lines
+        &["bad: zz\n", "after: 1\n"]
+    } else {
+        // failing value in the middle of a long line
+        &[]
+    };
+    if tail.is_empty() {
+        doc.push_str(&format!("{{\"{}\": 1, bad: zz, \"q{}\": 2}}\n", unit.repeat(40), unit.repeat(30)));
+        // root is a block mapping: make the flow mapping a value
+        doc = doc.replacen("{\"", "m: {\"", 1);
+    } else {
+        for t in tail {
+            doc.push_str(t);
+        }
+    }
+    let mut out = Vec::new();
+    for radius in [64usize, 5] {
+        let mut c = Case::new(&doc, if tail.is_empty() { "Val" } else { "MapI32" }, "ring-sweep");
+        if tail.is_empty() {
+            // `m` holds a mapping: duplicate key makes it fail late instead
+            c = Case::new(&format!("{doc}k0: 1\n"), "MapI32", "ring-sweep");
+        }
+        c.radius = radius;
+        c.entry = Entry::Reader(chunk);
+        out.push(c);
+    }
+    out
+}
+
+// ------------------------------------------------------------------ W9: every column x every radius on mixed-width lines
+
+const MIX: &[&str] = &["a", "\u{e9}", "\u{4e16}", "e\u{301}", "\u{1f600}", "\u{a0}", "\t", "\u{202e}", "\u{200b}", "b", "\u{754c}", "\u{9b}", "\u{7f}"];
+
+pub fn column_sweep_count(tier: Tier) -> usize {
+    // element index x leading blanks x line flavour
+    tier.pick(40, 90) * 3 * 4
+}
+
+/// A flow sequence of one-character strings read as `Vec<String>`; element `j` is a nested
+/// sequence, so the error sits at (nearly) every column in turn; every radius 0..=12 and 64.
+pub fn column_sweep_case(tier: Tier, i: usize) -> Vec<Case> {
+    let n_el = tier.pick(40, 90);
+    let j = i % n_el;
+    let lead = (i / n_el) % 3;
+    let flavour = i / n_el / 3;
+    let mut line = " ".repeat(lead);
+    line.push('[');
+    for e in 0..n_el {
+        if e > 0 {
+            line.push_str(", ");
+        }
+        if e == j {
+            line.push_str("[x]");
+        } else {
+            let u = MIX[(e * 7 + flavour * 3) % MIX.len()];
+            // quote what a plain scalar cannot hold
+            if u.chars().any(|c| crate::oracle::forbidden(c) || c == '\t' || c == '\u{a0}') {
+                line.push('"');
+                line.push_str(u);
+                line.push('"');
+            } else {
+                line.push_str(u);
+            }
+        }
+    }
+    line.push(']');
+    let doc = match flavour {
+        0 => format!("{line}\n"),
+        1 => format!("# \u{4e16}\u{754c} before\n{line} # after \u{4e16}\n# tail\n"),
+        2 => format!("# b1\n# b2\n# b3\n{line}\r\n# a1\r\n# a2\r\n# a3\r\n"),
+        _ => line.clone(),
+    };
+    let mut out = Vec::new();
+    for radius in (0usize..=12).chain([64usize, 139, 140]) {
+        for entry in [Entry::Str, Entry::Reader(7)] {
+            let mut c = Case::new(&doc, "VecString", "column-sweep");
+            c.radius = radius;
+            c.entry = entry;
+            out.push(c);
+        }
+    }
+    out
+}
+
+// ------------------------------------------------------------------ W10: errors in later documents of a stream
+
+/// Exhaustive over small streams: d documents (1..=5) of 1, 2 or 4 lines, the failing one at
+/// every index, three separator styles, optional leading comment; line numbers in the report
+/// are stream-absolute.
+pub fn stream_cases() -> Vec<Case> {
+    let mut out = Vec::new();
+    for ndocs in 1..=5usize {
+        for bad in 0..ndocs {
+            for lines in [1usize, 2, 4] {
+                for sep in ["---\n", "...\n---\n", "--- # c\n"] {
+                    for lead in ["", "# lead \u{4e16}\n"] {
+                        for kind in 0..3 {
+                            let mut doc = String::from(lead);
+                            for d in 0..ndocs {
+                                if d > 0 || sep.starts_with("--- #") {
+                                    doc.push_str(sep);
+                                }
+                                for l in 0..lines {
+                                    let key = format!("k{d}_{l}");
+                                    if d == bad && l == lines - 1 {
+                                        match kind {
+                                            0 => doc.push_str(&format!("{key}: zz\n")),
+                                            1 => doc.push_str(&format!("\"\u{4e16}{key}\": [1, 2\n")),
+                                            _ => doc.push_str(&format!("{key}: 1\nk{d}_0: 2\n")),
+                                        }
+                                    } else {
+                                        doc.push_str(&format!("{key}: {l}\n"));
+                                    }
+                                }
+                            }
+                            for (entry, radius) in [
+                                (Entry::Multi, 64usize),
+                                (Entry::Multi, 2),
+                                (Entry::ReadIter(7), 64),
+                                (Entry::Reader(7), 64),
+                                (Entry::Str, 64),
+                                (Entry::WithDeStr, 3),
+                            ] {
+                                let mut c = Case::new(&doc, "MapI32", "stream");
+                                c.entry = entry;
+                                c.radius = radius;
+                                out.push(c);
+                            }
+                        }
+                    }
+                }
+            }
+        }
+    }
+    let mut seen = std::collections::HashSet::new();
+    out.retain(|c| seen.insert(c.hash()));
+    out
+}
+
+// ------------------------------------------------------------------ W11: miette adapter on very long lines
+
+/// Exhaustive grid for the adapter's cropping of lines longer than 1 KiB around their labels:
+/// one label at every distance class from both ends, two labels (use site and anchor) on one
+/// line at every gap class, long unlabelled context lines, multi-byte text at the crop edges,
+/// LF / CRLF, string and reader entry points.
+pub fn miette_long_cases() -> Vec<Case> {
+    let units = ["x", "\u{e9}", "\u{4e16}", "\u{a0}", "e\u{301}"];
+    let lens: &[usize] = &[0, 100, 126, 127, 128, 129, 130, 500, 1100, 70_000];
+    let mut out = Vec::new();
+    let mut push = |doc: String, target: &'static str| {
+        for crlf in [false, true] {
+            let d = if crlf { doc.replace('\n', "\r\n") } else { doc.clone() };
+            for entry in [Entry::Str, Entry::Reader(7)] {
+                let mut c = Case::new(&d, target, "miette-long");
+                c.entry = entry;
+                out.push(c);
+            }
+        }
+    };
+    for u in units {
+        // one label
+        for &l in lens {
+            for &r in lens {
+                let mut line = String::from("{");
+                if l > 0 {
+                    line.push_str(&format!("\"{}\": 1, ", repeat_chars(u, l)));
+                }
+                line.push_str("k: zz");
+                if r > 0 {
+                    line.push_str(&format!(", \"q{}\": 2", repeat_chars(u, r)));
+                }
+                line.push('}');
+                push(format!("{line}\n"), "MapI32");
+                if l == 1100 || r == 1100 {
+                    push(format!("# c {}\n{line}\n# d\n", repeat_chars(u, 3000)), "MapI32");
+                }
+            }
+        }
+        // two labels on one line: anchor ... gap ... alias
+        let gaps: Vec<usize> =
+            [0usize, 10, 200, 300, 1100, 2000, 70_000].into_iter().chain(250..=262).collect();
+        for g in gaps {
+            for lp in [0usize, 130, 1100] {
+                let mut line = String::from("{v: [");
+                if lp > 0 {
+                    line.push_str(&format!("\"{}\", ", repeat_chars(u, lp)));
+                }
+                line.push_str("&x zz");
+                if g > 0 {
+                    line.push_str(&format!(", \"{}\"", repeat_chars(u, g)));
+                }
+                line.push_str("], k2: *x}");
+                push(format!("{line}\n"), "Strict");
+            }
+        }
+        // long unlabelled context lines around a short labelled line
+        for n in [1100usize, 5000, 70_000] {
+            let pad = repeat_chars(u, n);
+            push(format!("# {pad}\nk: zz\n# {pad}\n"), "MapI32");
+            push(format!("a: 1 # {pad}\nk: zz\nb: 2 # {pad}\n"), "MapI32");
+        }
+    }
+    let mut seen = std::collections::HashSet::new();
+    out.retain(|c| seen.insert(c.hash()));
+    out
 }
